@@ -98,7 +98,7 @@ fn main() {
         }
     } else {
         let mut rng = Rng::new(args.seed ^ 0xc06b);
-        let cases = if args.tier == "thorough" { 20000 } else { 600 };
+        let cases = if args.tier == "thorough" { 20000 } else { 2000 };
         for _ in 0..cases {
             run_case(&mut rng, &mut rep);
         }
